@@ -72,7 +72,7 @@ func (s *Scheme) handleSync(msg *IncMessage) {
 	s.lock.RUnlock()
 
 	if !exists {
-		s.Logger.Debugf("Received SYNC message for topic %s from %d but no instance expects it", hex.EncodeToString(msg.Topic)[:8], msg.Source)
+		s.Logger.Debugf("Received SYNC message for topic %s from %d but no instance expects it", hex.EncodeToString(prefix8(msg.Topic)), msg.Source)
 		return
 	}
 
@@ -80,20 +80,25 @@ func (s *Scheme) handleSync(msg *IncMessage) {
 }
 
 func (s *Scheme) handleMPC(msg *IncMessage) {
-	s.Logger.Debugf("msg on topic %s from %d", hex.EncodeToString(msg.Topic[:8]), msg.Source)
+	s.Logger.Debugf("msg on topic %s from %d", hex.EncodeToString(prefix8(msg.Topic)), msg.Source)
 	s.lock.RLock()
 	handleRBC, rbcExists := s.rbcInProgress[string(msg.Topic)]
 	classifier, classifierExists := s.messageClassifiers[string(msg.Topic)]
 	s.lock.RUnlock()
 
 	if !rbcExists {
-		s.Logger.Warnf("Received MPC message for topic %s but no RBC instance expects it", hex.EncodeToString(msg.Topic)[:8])
+		s.Logger.Warnf("Received MPC message for topic %s but no RBC instance expects it", hex.EncodeToString(prefix8(msg.Topic)))
 		s.Logger.Warnf("RBCMessage: %s", base64.StdEncoding.EncodeToString(msg.Data))
 		return
 	}
 
 	if !classifierExists {
-		s.Logger.Warnf("Received MPC message for topic %s but no classifier for it", hex.EncodeToString(msg.Topic)[:8])
+		s.Logger.Warnf("Received MPC message for topic %s but no classifier for it", hex.EncodeToString(prefix8(msg.Topic)))
+		return
+	}
+
+	if len(msg.Data) == 0 {
+		s.Logger.Warnf("Received empty MPC message from %d", msg.Source)
 		return
 	}
 
@@ -132,7 +137,7 @@ func (s *Scheme) handleRBC(msg *IncMessage, rbcEncoding rbcEncoding, classifier 
 	rbcMsg.digest = hash(rawMsgBytes)
 
 	s.Logger.Debugf("Received MPC %smessage from %d on topic %s for round %d",
-		broadcastString, msg.Source, hex.EncodeToString(msg.Topic[:8]), msgRound)
+		broadcastString, msg.Source, hex.EncodeToString(prefix8(msg.Topic)), msgRound)
 
 	handleRBC(&rbcMsg, msg.Source)
 }
@@ -141,7 +146,7 @@ func (s *Scheme) handleAck(msg *IncMessage, round uint8, sender uint16, digest [
 	var rbcMsg rbcMsg
 
 	s.Logger.Debugf("Received RBC ack for topic %s with digest %s on round %d about %d from %d",
-		hex.EncodeToString(msg.Topic[:8]), hex.EncodeToString(digest[:8]), round, sender, msg.Source)
+		hex.EncodeToString(prefix8(msg.Topic)), hex.EncodeToString(prefix8(digest)), round, sender, msg.Source)
 	rbcMsg.digest = digest
 	rbcMsg.sender = sender
 	rbcMsg.round = round
@@ -283,7 +288,7 @@ func (s *Scheme) runDKG(ctx context.Context, membership *membership, dkgProtocol
 		broadcastParties := excludeUniversal(membership.universalIdentifiers, s.SelfID)
 
 		rbc := s.RBF(func(digest string, sender uint16, msgRound uint8) {
-			s.Logger.Debugf("Broadcasting ack with digest %s for round %d about %d", hex.EncodeToString([]byte(digest)[:8]), msgRound, sender)
+			s.Logger.Debugf("Broadcasting ack with digest %s for round %d about %d", hex.EncodeToString(prefix8([]byte(digest))), msgRound, sender)
 			payload := newRBCEncoding(digest, sender, msgRound)
 			s.Send(uint8(MsgTypeMPC), dkgTopicHash, payload, broadcastParties...)
 		}, func(m interface{}, from uint16) {
@@ -847,6 +852,14 @@ func (r *threadSafeRBC) Receive(m RBCMessage, from uint16) {
 	defer r.lock.Unlock()
 
 	r.h(m, from)
+}
+
+// prefix8 returns at most the first 8 elements of its input; used for logging only.
+func prefix8(b []byte) []byte {
+	if len(b) > 8 {
+		return b[:8]
+	}
+	return b
 }
 
 func hash(in []byte) []byte {
